@@ -135,7 +135,13 @@ def cond(%(sig)s) -> bool:
 %(prelines)s    post: _
     """
     STATS["paths"] += 1
-    r = _h.%(func)s(%(call)s)
+    try:
+        r = _h.%(func)s(%(call)s)
+    except Exception:
+        # either the code under test raised, or formatting a failure message from symbolic values tripped CrossHair
+        # ("proxy intolerance", which would silently turn the failing path into an unknown one): report the path as a
+        # counterexample -- the plain-Python replay decides whether it is real
+        return False
     _sample([%(symnames)s])
     if r == "":
         STATS["ok"] += 1
